@@ -202,7 +202,7 @@ def run_impl(f, env, e, limit):
 def correspondence(ctx):
     c = Corr()
     ser = MSer()
-    n = 700 if ctx.thorough else 60
+    n = 700 if ctx.thorough else 50
     limit = 60 if ctx.thorough else 20
     cases, seen = [], set()
     for env, e, kind in sample_stream(ctx, n):
@@ -442,7 +442,7 @@ def oracle(ctx, factor, seeds):
     o = Oracle()
     for env, e, key in fixed_corpus(ctx):
         check_case(ctx, o, env, e, key, limit=120)
-    n = (260 if ctx.thorough else 28) * factor
+    n = (260 if ctx.thorough else 22) * factor
     for env, e, kind in sample_stream(ctx, n):
         if e is None:
             o.count(kind)
